@@ -147,7 +147,13 @@ func Generate(r *rng.R, cfg Config) *Program {
 	dirs := []string{""}
 	if cfg.Nested {
 		dirs = []string{"", "sub/", "sub/deep/", "other-dir/", "a_b/"}
+		if r.Chance(1, 5) {
+			// sibling directories one of whose names is a prefix of the other's (the common
+			// ancestor of api/x.thrift and apiv2/y.thrift is their parent, not api)
+			dirs = []string{"api/", "apiv2/", "api/", "apiv2/sub/", "api-v2/"}
+		}
 	}
+	prefixDirs := len(dirs) > 0 && dirs[0] == "api/"
 	bases := map[string]bool{}
 	for i := 0; i < cfg.Files; i++ {
 		var base string
@@ -167,6 +173,9 @@ func Generate(r *rng.R, cfg Config) *Program {
 		dir := dirs[r.Intn(len(dirs))]
 		if i == cfg.Files-1 && r.Chance(1, 2) {
 			dir = ""
+			if prefixDirs {
+				dir = "api/" // the file named on the command line, in the directory with the shorter name
+			}
 		}
 		f := &File{Path: dir + base + ".thrift"}
 		// includes: the last file includes (transitively) every other file
@@ -505,6 +514,9 @@ func mentions(t *Type, d *Def) bool {
 func (g *generator) genFields(f *File, d *Def, fwd []*Def) {
 	r := g.r
 	n := r.Intn(g.cfg.MaxFields + 1)
+	if d.Kind != Union && r.Chance(1, 6) {
+		n = 9 + r.Intn(8) // generated code may treat structs with many fields differently
+	}
 	if d.Kind == Union && n == 0 && !r.Chance(1, 8) {
 		n = 1 // an empty union is legal (and has no arity check) but rare
 	}
